@@ -168,6 +168,18 @@ class SubscriberInitJob(VCJob):
                     d.lists = z3.Store(d.lists, key, z3.Store(d.lists[key], n, args[0].ident))
                     d.lens = z3.Store(d.lens, key, n + 1)
                     return None
+            # registry.setdefault(key, []).append(x): the same two steps in one expression
+            if (desc.endswith(".append") and isinstance(node.func.value, ast.Call) and isinstance(node.func.value.func, ast.Attribute)
+                    and node.func.value.func.attr == "setdefault" and len(node.func.value.args) == 2
+                    and isinstance(node.func.value.args[1], ast.List) and not node.func.value.args[1].elts):
+                d = e.expr(node.func.value.func.value, st)
+                key = e.expr(node.func.value.args[0], st)
+                if isinstance(d, SymDict) and isinstance(args[0], Obj) and z3.is_expr(key):
+                    n = z3.If(d.dom[key], d.lens[key], z3.IntVal(0))
+                    d.dom = z3.Store(d.dom, key, True)
+                    d.lists = z3.Store(d.lists, key, z3.Store(d.lists[key], n, args[0].ident))
+                    d.lens = z3.Store(d.lens, key, n + 1)
+                    return None
             return NotImplemented
 
         ex.dict_store, ex.call_hook = dict_store, call_hook
